@@ -747,10 +747,10 @@ def _atheris_stage(chk: Check) -> list[dict]:
 
 
 def main(chk: Check) -> None:
-    chk.explore("verify", verify_case_st(), run_verify, quick=2000, thorough=60000)
-    chk.explore("gate", gate_case_st(), run_gate, quick=1000, thorough=30000)
-    chk.explore("e2e", gate_case_st(modes=("require",)), run_e2e, quick=240, thorough=6000)
-    chk.explore("text", text_case_st(), run_verify, quick=300, thorough=10000)
+    chk.explore("verify", verify_case_st(), run_verify, quick=4000, thorough=60000)
+    chk.explore("gate", gate_case_st(), run_gate, quick=2000, thorough=30000)
+    chk.explore("e2e", gate_case_st(modes=("require",)), run_e2e, quick=480, thorough=6000)
+    chk.explore("text", text_case_st(), run_verify, quick=600, thorough=10000)
     found: list[dict] = []
     if chk.replay is None and not chk.quick and not chk.violations:
         found = _atheris_stage(chk)
